@@ -25,6 +25,10 @@ type AbsEval struct {
 	// SkipLoop, when set and true for a nested loop, lets the evaluation continue
 	// past it: everything the loop assigns (locals, cells) becomes unknown.
 	SkipLoop func(s ast.Stmt) bool
+	// UnknownIf, when set and true for an if statement whose condition cannot be
+	// evaluated, lets the evaluation go on after the statement with everything
+	// either branch assigns forgotten (the values after it over-approximate both).
+	UnknownIf func(s *ast.IfStmt) bool
 	// Effect, when set, is told of every call made as a statement (a write to a
 	// buffer, say); false stops the evaluation as undecidable.
 	Effect func(call *ast.CallExpr) bool
@@ -96,6 +100,9 @@ func (a *AbsEval) havoc(n ast.Node) {
 	})
 }
 
+// AbsPtr is the address of a value (the result of &x for a local x).
+type AbsPtr struct{ Elem any }
+
 // RunList executes a statement list (e.g. a loop body for one element); the
 // second result tells whether an outcome (return or Branch) was reached.
 func (a *AbsEval) RunList(list []ast.Stmt) ([]any, bool, bool) {
@@ -119,6 +126,42 @@ func (a *AbsEval) Run(body *ast.BlockStmt) ([]any, bool) {
 }
 
 func (a *AbsEval) exec(list []ast.Stmt) ([]any, bool, bool) {
+	if a.UnknownIf == nil {
+		return a.exec1(list)
+	}
+	// tolerant mode: a compound statement that cannot be evaluated is passed over,
+	// forgetting everything it assigns
+	for _, s := range list {
+		switch s.(type) {
+		case *ast.IfStmt, *ast.SwitchStmt, *ast.LabeledStmt, *ast.BlockStmt, *ast.TypeSwitchStmt, *ast.SelectStmt:
+			save, saveCells := a.vars, a.cells
+			a.vars, a.cells = map[*types.Var]any{}, map[string]any{}
+			for k, v := range save {
+				a.vars[k] = v
+			}
+			for k, v := range saveCells {
+				a.cells[k] = v
+			}
+			r, ret, ok := a.exec1([]ast.Stmt{s})
+			if !ok {
+				a.vars, a.cells = save, saveCells
+				a.havoc(s)
+				continue
+			}
+			if ret {
+				return r, ret, ok
+			}
+		default:
+			if r, ret, ok := a.exec1([]ast.Stmt{s}); ret || !ok {
+				return r, ret, ok
+			}
+		}
+	}
+	return nil, false, true
+}
+
+func (a *AbsEval) exec1(list []ast.Stmt) ([]any, bool, bool) {
+stmts:
 	for _, s := range list {
 		switch x := s.(type) {
 		case *ast.ReturnStmt:
@@ -148,6 +191,10 @@ func (a *AbsEval) exec(list []ast.Stmt) ([]any, bool, bool) {
 			c, ok := a.Eval(x.Cond)
 			cb, isB := c.(bool)
 			if !ok || !isB {
+				if a.UnknownIf != nil && a.UnknownIf(x) {
+					a.havoc(x)
+					continue
+				}
 				return nil, false, false
 			}
 			if cb {
@@ -169,6 +216,10 @@ func (a *AbsEval) exec(list []ast.Stmt) ([]any, bool, bool) {
 			if x.Tag != nil {
 				t, ok := a.Eval(x.Tag)
 				if !ok {
+					if a.UnknownIf != nil {
+						a.havoc(x)
+						continue
+					}
 					return nil, false, false
 				}
 				tag = t
@@ -184,6 +235,10 @@ func (a *AbsEval) exec(list []ast.Stmt) ([]any, bool, bool) {
 				for _, ce := range cl.List {
 					v, ok := a.Eval(ce)
 					if !ok {
+						if a.UnknownIf != nil {
+							a.havoc(x)
+							continue stmts
+						}
 						return nil, false, false
 					}
 					hit := false
@@ -296,7 +351,16 @@ func (a *AbsEval) exec(list []ast.Stmt) ([]any, bool, bool) {
 				continue
 			}
 			return nil, false, false
-		case *ast.TypeSwitchStmt, *ast.SelectStmt, *ast.GoStmt, *ast.DeferStmt:
+		case *ast.TypeSwitchStmt, *ast.SelectStmt:
+			if a.UnknownIf != nil {
+				a.havoc(x)
+				continue
+			}
+			return nil, false, false
+		case *ast.GoStmt, *ast.DeferStmt:
+			if a.UnknownIf != nil {
+				continue
+			}
 			return nil, false, false
 		}
 	}
@@ -355,12 +419,20 @@ func (a *AbsEval) Eval(e ast.Expr) (any, bool) {
 				return val, true
 			}
 		}
+	case *ast.StarExpr:
+		if v, ok := a.Eval(x.X); ok {
+			if p, isP := v.(AbsPtr); isP {
+				return p.Elem, true
+			}
+		}
 	case *ast.UnaryExpr:
 		v, ok := a.Eval(x.X)
 		if !ok {
 			return nil, false
 		}
 		switch x.Op {
+		case token.AND:
+			return AbsPtr{Elem: v}, true
 		case token.NOT:
 			if b, isB := v.(bool); isB {
 				return !b, true
